@@ -371,6 +371,19 @@ func TestCheck(t *testing.T) {
 			do(c)
 		}
 	}
+	// files whose IDs agree in their most significant 32 bits: the ID order in the main packet (and with it the constants
+	// of the slices) is decided by the lower bytes
+	for k := 0; k < 6; k++ {
+		if !cfg.Mine(900 + k) {
+			continue
+		}
+		tw := scen.IDTwinFiles(9+k, uint64(20+k), 3)
+		if len(tw) < 2 {
+			continue
+		}
+		rec.Class("file-ids-agreeing-in-32-bits")
+		do(Case{Slice: 4, NRec: 2, G: 1 + k%3, Files: append(tw, scen.FileSpec{Name: "other.bin", Size: 13, Kind: "random", Seed: 99})})
+	}
 	cfg.SetRapid(cfg.N(1500, 8000), 1)
 	rapid.Check(t, func(rt *rapid.T) {
 		if !do(gen(rt, false)) {
